@@ -285,7 +285,7 @@ func (fr *frame) keptGhost(g string) bool {
 		return false
 	}
 	for _, p := range con.Keeps {
-		if strings.HasPrefix(g, ghostName(p)) {
+		if p == "*" || strings.HasPrefix(g, ghostName(p)) {
 			return true
 		}
 	}
@@ -362,11 +362,20 @@ func (fr *frame) applyContract(con *Contract, key string, args []SV, cur *State,
 	vc.curApp = vc.appSeq
 	defer func() { vc.curApp = saveApp }()
 	pre := cur.clone()
-	env := &SpecEnv{vc: vc, vars: vc.bindContract(con, args, key), cur: pre, old: pre, pkg: vc.pkgOf(con), mode: vc.mode}
+	env := &SpecEnv{vc: vc, vars: vc.bindContract(con, args, key), cur: pre, old: pre, pkg: vc.pkgOf(con), mode: vc.mode, con: con, app: vc.curApp}
 	// implicit: pointer receiver non-nil
 	if con.Recv != "" && len(args) > 0 && args[0].typ != nil {
 		if _, ok := args[0].typ.Underlying().(*types.Pointer); ok && args[0].loc == nil {
 			fr.nonNil(args[0])
+		}
+	}
+	if len(con.Defines) > 0 {
+		axs, wds := vc.instantiateDefines(con, env)
+		for di, wd := range wds {
+			vc.oblige("pre", fmt.Sprintf("%s.define.%s", tag, con.Defines[di].Name), fr.g, wd)
+		}
+		for _, ax := range axs {
+			vc.assume(ax)
 		}
 	}
 	i := 0
@@ -442,7 +451,7 @@ func (fr *frame) applyContract(con *Contract, key string, args []SV, cur *State,
 	cur.alloc = na
 	fr.flushWF(na)
 	// results
-	post := &SpecEnv{vc: vc, vars: map[string]SV{}, cur: cur, old: pre, pkg: env.pkg, mode: vc.mode}
+	post := &SpecEnv{vc: vc, vars: map[string]SV{}, cur: cur, old: pre, pkg: env.pkg, mode: vc.mode, con: con, app: vc.curApp}
 	for k, v := range env.vars {
 		post.vars[k] = v
 	}
